@@ -404,6 +404,30 @@ theorem C08_region_bounds (r : BqVerif.Region.Region) (hr : r.wf = true) :
   obtain ⟨hi, e2, p2, b2⟩ := h2.2 h
   exact ⟨lo, hi, e1, e2, p1, p2, fun c q hc => ⟨b1 c q hc, b2 c q hc⟩⟩
 
+/-- **`r.union(s)`**: when it returns, the result is a well-formed region whose cells are the cells
+    of either region; it raises only ValueError, and exactly because some shared qudit carries two
+    intervals that neither overlap nor touch. -/
+theorem C08_region_union (r s : BqVerif.Region.Region) (hr : r.wf = true) (hs : s.wf = true) :
+    (∀ u, r.union s = .ok u →
+        u.wf = true ∧ ∀ c q, u.hasPt c q = true ↔ (r.hasPt c q = true ∨ s.hasPt c q = true))
+    ∧ (∀ e, r.union s = .error e →
+        e = .value ∧ ∃ q a b, r.get q = some a ∧ s.get q = some b ∧ a.union b = .error .value) :=
+  BqVerif.Region.Region.union_spec r s hr hs
+
+/-- **`r == s`** (sorted item lists) is equality as mappings qudit -> interval, whatever the
+    insertion order of the two dicts. -/
+theorem C08_region_eq (r s : BqVerif.Region.Region) (hr : r.wf = true) (hs : s.wf = true) :
+    r.eqv s = true ↔ ∀ q, r.get q = s.get q := BqVerif.Region.Region.eqv_iff r s hr hs
+
+/-- **`r < s` on regions that share a qudit** is `True` exactly when `s.depends_on(r)`, and raises
+    ValueError exactly when two shared qudits disagree about the order. -/
+theorem C08_region_lt_shared (r s : BqVerif.Region.Region) (hne : r.common s ≠ []) :
+    (r.ltRegion s = .ok true ↔ s.dependsOn r = true)
+    ∧ (r.ltRegion s = .error .value ↔
+        ∃ q ∈ r.common s, ∃ q' ∈ r.common s,
+          BqVerif.Region.Region.fShared r s q ≠ BqVerif.Region.Region.fShared r s q') :=
+  BqVerif.Region.Region.ltRegion_dependsOn r s hne
+
 /-- non-vacuity: two blocks of a 3-qudit circuit, the second after the first on qudit 1 -/
 example :
     let r : BqVerif.Region.Region := [(1, ⟨2, 3⟩), (2, ⟨0, 3⟩)]
